@@ -95,6 +95,7 @@ def check(ctx):
     ctx.rule("R4", "the completion-context analyser's line-start table agrees with the lexer's notion of a line (\\n only)", floor=1)
     ctx.rule("R6", "the names the path completer offers are the names the file system reports: the glob walker's listing helper returns os.listdir entries themselves (filtered or sorted at most, never rewritten)", floor=1)
     ctx.rule("R7", "the completion context a request works with is analysed from that request's whole text and cursor position: Completer.parse computes it by calling the analyser in this call on every path and keeps nothing from earlier requests (suffix and closing quote depend on the text *after* the cursor)", floor=2)
+    ctx.rule("R8", "the scanner that finds the string the cursor is in (tools.check_for_partial_string) judges 'this quote is inside a comment' only from text *after the last string it scanned*: the search for `#` never looks back into an earlier, already closed string on the same line (`@('a#b', 'my fi<Tab>` must still see the second quote open)", floor=1)
     ctx.rule("R3", "both emitters escape the closing delimiter in force, on every path, after backslash doubling and before the assembly start+name+end", floor=10)
 
     cq = ctx.repo.module(CQ)
@@ -410,6 +411,7 @@ def check(ctx):
 
     _listing_verbatim(ctx)
     _fresh_context(ctx)
+    _partial_string_comment_window(ctx)
 
 
 def _fresh_context(ctx):
@@ -487,6 +489,65 @@ def _listing_verbatim(ctx):
     if not n_ret:
         raise AnchorMissing(f"{st}: a listing helper with os.listdir and a return")
 
+
+
+def _partial_string_comment_window(ctx):
+    TL_ = "xonsh/tools.py"
+    tm = ctx.repo.module(TL_)
+    fn = tm.func("check_for_partial_string")
+    st = f"{TL_}:check_for_partial_string"
+    xp = param_name(fn, 0, skip_self=False)
+    defs = df.all_defs(fn)
+    loops = [l for l in walk_local(fn) if isinstance(l, ast.While)]
+    if not loops:
+        raise AnalysisError(f"{st}: no scan loop")
+    lp = loops[0]
+    reslices = [a for a in ast.walk(lp) if isinstance(a, ast.Assign) and any(isinstance(t, ast.Name) and t.id == xp for t in a.targets) and isinstance(a.value, ast.Subscript) and unparse(a.value.value) == xp and isinstance(a.value.slice, ast.Slice) and a.value.slice.lower is not None and a.value.slice.upper is None]
+    hashes = []
+    for c in ast.walk(lp):
+        if isinstance(c, ast.Call) and isinstance(c.func, ast.Attribute) and c.func.attr in ("find", "rfind", "index", "count") and c.args and const_value(c.args[0], None) == "#":
+            hashes.append(c)
+        if isinstance(c, ast.Compare) and len(c.ops) == 1 and isinstance(c.ops[0], (ast.In, ast.NotIn)) and const_value(c.left, None) == "#":
+            hashes.append(c)
+    if not hashes:
+        ctx.ob("R8", st, "the scanner has no comment test (nothing to get wrong)", True, key="partial-string|no-comment-test")
+        return
+    if reslices:
+        # re-slicing style: the text variable always is the unscanned tail, any window inside it starts after the last string
+        for h in hashes:
+            ctx.ob("R8", st, f"`{short(h, 40)}` looks at the unscanned tail only (the text variable is cut behind every scanned string)", True, key="partial-string|comment-window-reaches-back", where=loc(h))
+        return
+    # absolute-position style: the scan position is what the opening-quote search starts from
+    P = {unparse(c.args[1]) for c in ast.walk(lp) if isinstance(c, ast.Call) and isinstance(c.func, ast.Attribute) and c.func.attr == "search" and len(c.args) >= 2 and unparse(c.args[0]) == xp}
+    if not P:
+        raise AnalysisError(f"{st}: neither re-slicing nor an absolute scan position recognised")
+
+    def depends_on_pos(e, depth=0):
+        if depth > 5 or e is None:
+            return False
+        if unparse(e) in P:
+            return True
+        if isinstance(e, ast.Name):
+            return any(d.value is not None and depends_on_pos(d.value, depth + 1) for d in defs.get(e.id, []))
+        if isinstance(e, ast.Call) and call_name(e) == "max":
+            return any(depends_on_pos(a, depth + 1) for a in e.args)
+        if isinstance(e, ast.BinOp):
+            return depends_on_pos(e.left, depth + 1) or depends_on_pos(e.right, depth + 1)
+        if isinstance(e, ast.Call) and isinstance(e.func, ast.Attribute) and e.func.attr in ("rfind", "find") and len(e.args) >= 2:
+            # x.rfind("\n", lo, hi): the result is >= lo - 1; it is bounded by the scan position only if lo is
+            return depends_on_pos(e.args[1], depth + 1)
+        return False
+
+    for h in hashes:
+        if isinstance(h, ast.Call):
+            lo = h.args[1] if len(h.args) >= 2 else None
+            ok = unparse(h.func.value) == xp and depends_on_pos(lo)
+        else:
+            hay = h.comparators[0]
+            if isinstance(hay, ast.Name) and len(defs.get(hay.id, [])) == 1 and defs[hay.id][0].value is not None:
+                hay = defs[hay.id][0].value
+            ok = isinstance(hay, ast.Subscript) and isinstance(hay.slice, ast.Slice) and depends_on_pos(hay.slice.lower)
+        ctx.ob("R8", st, f"`{short(h, 50)}`: the window searched for `#` starts at or after the scan position ({sorted(P)})", ok, key="partial-string|comment-window-reaches-back", where=loc(h), detail=None if ok else "the window starts at the line start of the whole text: a `#` inside an earlier closed string on that line hides the quote")
 
 META = {
     "technique": "static analysis: lexer spelling tables and handlers -> token types, grammar exclusion set, regex syntax-tree character class; set inclusion; CFG dominance / reaching-definition (stale copy) check of the two quote emitters",
